@@ -249,7 +249,7 @@ def eval_conc(ctx, r, cfg, nodes, meta):
     for e in gets:
         lo, hi = window(e)
         if e['kind'] == 'segment':
-            for key, q in e['r'].items():
+            for key, q in ((k_, v_) for k_, v_ in e['r'].items() if not k_.startswith('index:')):
                 sid = key.split(':', 1)[1]
                 got = (q.get('occupied'), tuple((a['l'], a['h'], a['type']) for a in (q.get('addrs') or [])))
                 cand = [i for i in range(lo, hi + 1) if (S[i].st['segments'][sid]['occupied'], tuple(tuple(x) for x in S[i].st['segments'][sid]['addrs'])) == got]
